@@ -103,6 +103,32 @@ def check_decoder(res, ctx, rng, name):
                           f'END word {[hex(w) for w in ret]}', case)
             return
     res.count('success_results_checked')
+    # boundary return words: zero (a read at end of file, descriptor 0), around 2^31 / 2^32, the ends of the range - a
+    # successful call never shows an errno and any number it shows is a full rendering of an END word
+    for w in RETURN_BOUNDARIES:
+        for alt in ([0, w] + ret[1:], [0, w, w, w]):
+            try:
+                t = r(start, alt)
+            except Exception as x:
+                res.violation(f'c10-raises-{core.exc_name(x)}', f'{name}: {x!r} with END words {alt}', dict(case, end=alt))
+                return
+            cp, rp = split_result(t)
+            res.count('boundary_return_words_checked')
+            if 'errno' in rp:
+                res.violation('c10-errno-on-success', f'{name}: error word 0, return word {hex(w)}: the text reads {t!r}',
+                              dict(case, end=alt))
+                return
+            if cp != call_ok:
+                res.violation('c10-call-part-depends-on-end', f'{name}: call part {cp!r} vs {call_ok!r} when only the END '
+                              f'record changed', dict(case, end=alt))
+                return
+            for v in [int(x, 16) if x.lower().startswith('0x') else int(x)
+                      for x in re.findall(r'(?<![\w.])(-?0x[0-9a-fA-F]+|-?\d+)\b', rp)]:
+                if not any(v in full(x) for x in alt[1:]):
+                    res.violation('c10-success-value-truncated' if any(v in render.renderings(x) for x in alt[1:]) else
+                                  'c10-success-value-not-from-end', f'{name}: END words {[hex(x) for x in alt]}: result '
+                                  f'{rp!r} shows {v}', dict(case, end=alt))
+                    return
     if res_ok:
         # non-constant in the return word
         alt = [0] + [w ^ 0x5a5a5a5a5a5a5a5a for w in ret]
@@ -174,6 +200,7 @@ def check_decoder(res, ctx, rng, name):
 
 
 STREAM_CASES = []
+RETURN_BOUNDARIES = (0, 1, (1 << 31) - 1, 1 << 31, (1 << 32) - 1, 1 << 32, (1 << 63) - 1, 1 << 63, (1 << 64) - 1)
 
 # window sizes for the scale ladder: a call that blocks for a long time returns after thousands of records of its thread
 SCALE_QUICK = (4094, 4095, 4096, 5000, 9000)
@@ -230,6 +257,7 @@ def run(ctx):
     res.require('decoders_checked', 50)
     res.require('long_windows', 20)
     res.require('scale_windows', 10)
+    res.require('boundary_return_words_checked', 200)
     res.require('stream_windows_one_thread', 20)
     res.require('file_windows_v3', 20)
     return res
